@@ -14,13 +14,14 @@ def main():
     only = a[a.index("--only") + 1].split(",") if "--only" in a else None
     pr = a[a.index("--props") + 1] if "--props" in a else "own"
     tier = a[a.index("--tier") + 1] if "--tier" in a else "quick"
-    ids = sorted(p.name for p in (ROOT / "seeded").iterdir() if (p / "patch.diff").exists())
+    SD = seeded.SEEDED
+    ids = sorted(p.name for p in SD.iterdir() if (p / "patch.diff").exists())
     if only:
         ids = [i for i in ids if i in only]
-    resf = ROOT / "seeded" / "RESULTS.json"
+    resf = SD / "RESULTS.json"
     results = json.loads(resf.read_text()) if resf.exists() else {}
     def one(sid):
-        meta = json.loads((ROOT / "seeded" / sid / "meta.json").read_text())
+        meta = json.loads((SD / sid / "meta.json").read_text())
         pl = [meta.get("property", sid.split("-")[0])] if pr == "own" else pr.split(",")
         pl = [p for p in pl if p in props.PROPS]
         r = seeded.run(sid, pl, tier)
